@@ -308,8 +308,10 @@ func vSlurpOne(s *LimitedReaderSlurper, limit uint64, data []byte, script []vEv,
 		nb = s.lastBuffer
 		held = s.currentMessageBytesRead // bytes of this message copied into the buffers
 	}
-	if uint64(rd.pos) != held {
-		st["slurp_held_mismatch"]++ // the reader handed out exactly what the slurper counts
+	// the slurper counts exactly what the reader handed out, except for the one probe byte it
+	// reads when all memory is used
+	if uint64(rd.pos) != held && !(errc == 1 && uint64(rd.pos) == held+1) {
+		st["slurp_held_mismatch_unexpected"]++
 	}
 	if held > limit {
 		st["slurp_held_over_limit"]++
